@@ -16,3 +16,24 @@ Definition mk_net (ver value prefixlen : Z) : outcome net :=
     else if negb ((0 <=? prefixlen) && (prefixlen <=? width ver)) then Raise AddrFormatError
     else Ok {| nver := ver; nval := value; nplen := prefixlen |}
   else Raise ValueError.
+
+(* ---- added for functions with loops and lists (harness/gen/pysrc.py, second round) ---- *)
+From Coq Require Import List.
+Import ListNotations.
+
+(* list.pop(): (the list without its last element, the last element); IndexError on an empty list.
+   Same text as Merge.pop_last, repeated here so that the generated files do not depend on Model/Merge.v. *)
+Fixpoint py_pop {A} (l : list A) : outcome (list A * A) :=
+  match l with
+  | [] => Raise IndexError
+  | [x] => Ok ([], x)
+  | x :: r => do p <- py_pop r; Ok (x :: fst p, snd p)
+  end.
+
+(* the operand of `x in y`, by its class: the three BaseIP kinds of Contains.ipobj (same fields, same order) plus
+   "anything else" (a string, ...), for which the Python methods fall back to a parser (not translated). *)
+Inductive operand :=
+| OAddr (ver v : Z)          (* IPAddress: _module.version, _value *)
+| ONet (ver v p : Z)         (* IPNetwork: version, _value (host bits kept), _prefixlen *)
+| ORng (ver s e : Z)         (* IPRange / IPGlob: version, _start._value, _end._value *)
+| OOther.                    (* no BaseIP object *)
